@@ -70,3 +70,14 @@ Theorem reassembly_in_order :
     rfeed_chunks (RLine []) chunks = (RLine [], ms).
 Proof. exact reassembly_in_order_l. Qed.
 Print Assumptions reassembly_in_order.
+
+(* commands of one connection: each handler starts only after the previous one has finished, and
+   handlers start in the order the commands were sent *)
+Theorem dispatch_serial : forall ms, serialb (dispatch_run ms) = true.
+Proof. exact dispatch_serial_l. Qed.
+Print Assumptions dispatch_serial.
+
+Theorem dispatch_order : forall ms,
+  map snd (filter (fun e : bool * Z => fst e) (dispatch_run ms)) = map snd (filter (fun m : bool * Z => fst m) ms).
+Proof. exact dispatch_order_l. Qed.
+Print Assumptions dispatch_order.
